@@ -137,7 +137,11 @@ static void env_step (void) {
 			else if (op == 3 && C != NULL) nsync_note_notify (C);
 			else if (op == 4 && !p_freed) { nsync_note x = nsync_note_new (P, nsync_time_no_deadline); (void) x; }
 		} else {
-			if (op == 1) nsync_note_notify (N);
+			if (op == 1) {
+				nsync_note_notify (N);
+				/* this second notifier is a caller too: it may have had to wait for A (a path on which it blocks is cut), but if it returns, n is notified */
+				__CPROVER_assert (N->notified != 0, "C08: when nsync_note_notify returns the note itself is notified (also for a second, concurrent notifier)");
+			}
 			else if (op == 2 && !p_freed) { p_freed = 1; nsync_note_free (P); }
 			else if (op == 3 && !p_freed) nsync_note_notify (P);
 			else if (op == 4 && !p_freed) { nsync_note x = nsync_note_new (P, nsync_time_no_deadline); (void) x; }
